@@ -439,8 +439,9 @@ func c07check(c *h.Ctx, box [4]float64, line []P, tol float64, full bool) (nontr
 		}
 		other := orb.LineString{{box[0] - 3, box[1] - 3}, {box[0] - 2, box[1] - 3}}
 		// an outside member first, then the line, another outside member, the line again
-		mlsIn := orb.MultiLineString{cloneLS(other), cloneLS(in), cloneLS(other), cloneLS(in)}
-		mlsSnap := orb.MultiLineString{cloneLS(other), cloneLS(in), cloneLS(other), cloneLS(in)}
+		// (vertex-less members, empty and nil, stand between and behind the others: they contribute nothing)
+		mlsIn := orb.MultiLineString{cloneLS(other), cloneLS(in), orb.LineString{}, cloneLS(other), cloneLS(in), nil}
+		mlsSnap := orb.MultiLineString{cloneLS(other), cloneLS(in), orb.LineString{}, cloneLS(other), cloneLS(in), nil}
 		mls := clip.MultiLineString(b, mlsIn, opts...)
 		c.Eval()
 		for i := range mlsSnap {
@@ -478,6 +479,22 @@ func c07check(c *h.Ctx, box [4]float64, line []P, tol float64, full bool) (nontr
 					c.Fail("", "clip.Geometry(LineString) differs from clip.LineString (several pieces)", map[string]interface{}{"case": cs(), "got": sv(g), "typed": sv(got)})
 				}
 			}
+		}
+	}
+	// options are applied in the order given: the last one decides
+	for _, oc := range []struct {
+		opts []clip.Option
+		name string
+		want orb.MultiLineString
+	}{
+		{[]clip.Option{clip.OpenBound(true), clip.OpenBound(false)}, "OpenBound(true), OpenBound(false)", clip.LineString(b, cloneLS(in))},
+		{[]clip.Option{clip.OpenBound(false), clip.OpenBound(true)}, "OpenBound(false), OpenBound(true)", clip.LineString(b, cloneLS(in), clip.OpenBound(true))},
+		{[]clip.Option{clip.OpenBound(false)}, "OpenBound(false)", clip.LineString(b, cloneLS(in))},
+	} {
+		g2 := clip.LineString(b, cloneLS(in), oc.opts...)
+		c.Eval()
+		if !refmodel.EqualBits(g2, oc.want) {
+			c.Fail("", "several options in one call: the result is not that of the last option given", map[string]interface{}{"case": c07case{box, line, false}, "options": oc.name, "got": sv(g2), "want": sv(oc.want)})
 		}
 	}
 	// closed again after open: the option must not stick
